@@ -21,10 +21,10 @@ CVC5 = "/usr/bin/cvc5"
 
 # budgets (seconds); sized ~10x the measured baseline so that verdicts do not flip under load
 Q_FAST = float(os.environ.get("PYVC_Q_FAST", "4"))
-Q_SLOW = float(os.environ.get("PYVC_Q_SLOW", "90"))
+Q_SLOW = float(os.environ.get("PYVC_Q_SLOW", "150"))
 Z3_QUICK = float(os.environ.get("PYVC_Z3_QUICK", "2"))
-Z3_T = float(os.environ.get("PYVC_Z3_T", "90"))
-CVC5_T = float(os.environ.get("PYVC_CVC5_T", "90"))
+Z3_T = float(os.environ.get("PYVC_Z3_T", "150"))
+CVC5_T = float(os.environ.get("PYVC_CVC5_T", "150"))
 
 
 def to_smt2(hyps, goal_neg):
